@@ -594,13 +594,15 @@ package bitcoin_reader
 // cancelDownloaders cancels every listed downloader of the hash: only channels of listed downloaders are signalled.
 //@ func (*BlockManager).cancelDownloaders
 //@   requires m != nil && dlOK(m.downloaders)
-//@   ensures [C16.cancel-frame] forallv(c, chan error, !old(isDownloadChan(m.downloaders, c)) ==> sent(c) == old(sent(c)) && closed(c) == old(closed(c)))
+//@   ensures [C16.cancel-frame] forallv(c, chan error, old(allocated(c)) && !old(isDownloadChan(m.downloaders, c)) ==> sent(c) == old(sent(c)) && closed(c) == old(closed(c)))
 //@   modifies m.downloaderLock, allof(BlockDownloader.isCancelled), allof(BlockDownloader.stateLock), allof(BlockDownloader.Mutex), allchans(interface{}), allchans(error), allof(BitcoinNode.blockReader), allof(BitcoinNode.blockOnStop), allof(BitcoinNode.blockHandler), allof(BitcoinNode.Mutex), ghost("cancelFoundStarted"), allelems(*downloadThread)
 //@   loop 1
 //@     modifies allof(BlockDownloader.isCancelled), allof(BlockDownloader.stateLock), allof(BlockDownloader.Mutex), allchans(interface{}), allchans(error), allof(BitcoinNode.blockReader), allof(BitcoinNode.blockOnStop), allof(BitcoinNode.blockHandler), allof(BitcoinNode.Mutex), ghost("cancelFoundStarted")
 //@     invariant (-1 <= rangeindex && rangeindex < len(downloaders)) || (len(downloaders) == 0 && rangeindex == -1)
 //@     invariant len(downloaders) == old(len(m.downloaders)) && forall(k, 0, len(downloaders), downloaders[k] == old(m.downloaders[k]) && downloaders[k] != nil && downloaders[k].downloader == old(m.downloaders[k].downloader) && downloaders[k].downloader.Complete == old(m.downloaders[k].downloader.Complete) && bdOK(downloaders[k].downloader))
-//@     invariant forallv(c, chan error, !old(isDownloadChan(m.downloaders, c)) ==> sent(c) == old(sent(c)) && closed(c) == old(closed(c)))
+//@     invariant forall(k, 0, len(downloaders), exists(i, 0, old(len(m.downloaders)), old(m.downloaders[i].downloader.Complete) == downloaders[k].downloader.Complete))
+//@     invariant forallv(c, chan error, old(allocated(c)) && !old(isDownloadChan(m.downloaders, c)) ==> sent(c) == old(sent(c)))
+//@     invariant forallv(c, chan error, old(allocated(c)) && !old(isDownloadChan(m.downloaders, c)) ==> closed(c) == old(closed(c)))
 
 //@ func (*BlockManager).Downloaders
 //@   requires m != nil && threadsOK(m.downloaders) && forall(i, 0, len(m.downloaders), m.downloaders[i].downloader != nil)
